@@ -18,7 +18,8 @@ RULE = ('Generated (a): 0-40 samples (scalars, vectors of 3, 2x2 arrays; values 
         'parallelVariance() through a barrier-based mpi4py double whose collectives pickle every exchanged '
         'value.  (b): Optimizer.generate_profiles / compute_derived_trace on N simulated ranks (see '
         'DESIGN.md).  Non-trivial = >=2 ranks, at least one rank holding exactly one sample or none, '
-        'non-uniform weights, >=2 samples in total; distinct by case hash.')
+        'non-uniform weights, >=2 samples in total; distinct by case hash.'
+        ' Part (a) also queries one accumulator part-way (streaming) before feeding it the remaining samples.')
 ASSUMPTIONS = [
     'mpi4py is absent: the communicator double implements the documented semantics of the lower-case '
     'object collectives (pickle round trip; SUM on lists = concatenation in rank order)',
